@@ -535,7 +535,18 @@ def rule_panics(rep):
                 # semantic match: `debug_assert!(M <= wave_out[chan].as_mut().len())` with M the minimum output length just validated
                 c = x["args"][0]
                 vcalls = ir.calls(fn["body"], "validate_buffers")
-                if c.get("k") == "bin" and c["op"] == "<=" and len(vcalls) == 1 and len(vcalls[0]["args"]) == 6 and nbit(c["l"]) == nbit(vcalls[0]["args"][5]) \
+                def _same_len(u, v):
+                    if nbit(u) == nbit(v):
+                        return True
+                    # the same value written through immutable `let` locals: both sides resolved to their initialisers, which may only read
+                    # immutable locals and fields that this function never assigns
+                    ru, rv = ir.resolve_let(fn, u), ir.resolve_let(fn, v)
+                    written = {ir.self_field_root(y["l"]) for y in walk(fn["body"]) if y.get("k") in ("assign", "opassign")}
+                    reads = {ir.self_field_root(y) for y in walk(ru) if y.get("k") == "field"} | {ir.self_field_root(y) for y in walk(rv) if y.get("k") == "field"}
+                    pure = all(y.get("k") in ("bin", "path", "field", "lit", "cast") for z in (ru, rv) for y in walk(z))
+                    paths_ok = all(ir.resolve_let(fn, y, 1) is not y or y["p"] == "self" for z in (ru, rv) for y in walk(z) if y.get("k") == "path")
+                    return pure and paths_ok and not (reads & written) and nbit(ru) == nbit(rv)
+                if c.get("k") == "bin" and c["op"] == "<=" and len(vcalls) == 1 and len(vcalls[0]["args"]) == 6 and _same_len(c["l"], vcalls[0]["args"][5]) \
                         and c["r"].get("k") == "mcall" and c["r"]["name"] == "len" and any(is_path(y, fn["params"][1]["name"]) for y in walk(c["r"])):
                     why = "restates the output length validate_buffers just checked (R-C13-order)"
             rep.ob(R, "%s/%s/%s %s" % (f, fn["name"], kind, cond[:60]), why is not None,
